@@ -112,6 +112,33 @@ class Oracle:
         finally:
             self._uninstall()
 
+    def run_open(self, prefix, fn, grid=None):
+        """one enumeration-mode run: follow `prefix`, then take choice 0 everywhere"""
+        self.mode, self._plan, self._pos, self.trail, self.grid = "enumerate", list(prefix), 0, [], grid
+        self._install()
+        try:
+            return fn()
+        finally:
+            self._uninstall()
+
+    @staticmethod
+    def next_prefix(trail):
+        """odometer step: the prefix of the next leaf after a run with this trail, or None"""
+        p = [t[2] for t in trail]
+        i = len(p) - 1
+        while i >= 0 and p[i] + 1 >= trail[i][1]:
+            i -= 1
+        if i < 0:
+            return None
+        return p[:i] + [p[i] + 1]
+
+    @staticmethod
+    def weight(trail):
+        w = Fraction(1)
+        for _k, n, _v in trail:
+            w /= n
+        return w
+
     def enumerate(self, fn, grid=None, max_leaves=None):
         """Yield (result, trail, weight Fraction) for every leaf of fn's decision tree."""
         self.mode, self.grid = "enumerate", grid
